@@ -198,5 +198,189 @@ def ref_range_edit(text, op, axis, p, n):
     def pr(x): return (letters_of(x[0]) if x[0] else '') + (str(x[1]) if x[1] else '')
     return pr(a) if len(parts) == 1 else pr(a) + ':' + pr(b)
 
+WS = 'structs::worksheet::Worksheet::'
+def new_sheet(it):
+    return Box_(it.call('<structs::worksheet::Worksheet as std::default::Default>::default', []))
+def put_cell(it, ws, c, r, tag):
+    cell = it.call(WS + 'get_cell_mut::<(u32, u32)>', [Ref(ws), [c, r]])
+    it.call('structs::cell::Cell::set_value_bool', [cell, tag])
+def cell_tag(it, ws, c, r):
+    """0 = no cell, 1 = TRUE cell, 2 = FALSE cell, 3 = other"""
+    o = it.call(WS + 'get_cell::<(u32, u32)>', [Ref(ws), [c, r]])
+    if o.variant == 0: return 0
+    v = pstr(deref_all(it.call('structs::cell::Cell::get_value', [o.fields[0]]).fields[0]))
+    return {'TRUE': 1, 'FALSE': 2}.get(v, 3)
+
+class SheetEdit(Harness):
+    name = 'sheet.insert_remove'; property_id = 'C07'
+    entry = [WS + 'insert_new_row', WS + 'insert_new_column_by_index', WS + 'remove_row', WS + 'remove_column_by_index', WS + 'get_cell_mut', WS + 'add_merge_cells', WS + 'add_comments']
+    doc = 'a real Worksheet holding two cells, a merged range and a comment at symbolic positions; one public insert/remove of rows or columns with symbolic position and width; every object is compared with the reference grid'
+    def __init__(self, tier):
+        self.D = 9 if tier == 'thorough' else 6
+        self.bounds = {'cells': 2, 'cell_positions': 'anywhere in the grid (symbolic column 1..16384, row 1..1048576)', 'merge_and_comment_positions': '1..%d x 1..%d (one letter, one digit: their grid-wide behaviour is decided by range.shift)' % (self.D, self.D),
+                       'edit': 'one of insert rows / insert columns / remove rows / remove columns, position 1..limit, width 1..limit'}
+    def run(self, it, ctx, res):
+        D = self.D
+        op = 'insert' if ctx.branch(ctx.sym_bool('op_insert')) else 'remove'
+        axis = 'row' if ctx.branch(ctx.sym_bool('axis_row')) else 'col'
+        lim = MAXR if axis == 'row' else MAXC
+        ca = ctx.sym_int('ca', 1, MAXC); ra = ctx.sym_int('ra', 1, MAXR); cb = ctx.sym_int('cb', 1, MAXC); rb = ctx.sym_int('rb', 1, MAXR)
+        ctx.assume(z3.Or(ca != cb, ra != rb))
+        m1c = ctx.sym_int('m1c', 1, D); m1r = ctx.sym_int('m1r', 1, D); m2c = ctx.sym_int('m2c', 1, D); m2r = ctx.sym_int('m2r', 1, D)
+        ctx.assume(z3.And(m1c <= m2c, m1r <= m2r, z3.Or(m1c < m2c, m1r < m2r)))
+        kc = ctx.sym_int('kc', 1, D); kr = ctx.sym_int('kr', 1, D)
+        p = ctx.sym_int('p', 1, lim); n = ctx.sym_int('n', 1, lim)
+        pos = lambda c, r: r if axis == 'row' else c
+        if op == 'insert':
+            for c, r in ((ca, ra), (cb, rb)): ctx.assume(z3.If(pos(c, r) >= p, pos(c, r) + n <= lim, True))
+        else: ctx.assume(p + n - 1 <= lim)
+        info = {'op': op, 'axis': axis}
+        try:
+            ws = new_sheet(it)
+            put_cell(it, ws, ca, ra, True); put_cell(it, ws, cb, rb, False)
+            it.call(WS + 'add_merge_cells::<&str>', [Ref(ws), sref(SStr(sym_coord(ctx, m1c, m1r, False, False, 'm') + [58] + sym_coord(ctx, m2c, m2r, False, False, 'n')))])
+            com = Box_(it.call('<structs::comment::Comment as std::default::Default>::default', []))
+            it.call('structs::comment::Comment::new_comment::<(u32, u32)>', [Ref(com), [kc, kr]])
+            it.call(WS + 'add_comments', [Ref(ws), com.v])
+            fn = {('insert', 'row'): 'insert_new_row', ('insert', 'col'): 'insert_new_column_by_index', ('remove', 'row'): 'remove_row', ('remove', 'col'): 'remove_column_by_index'}[(op, axis)]
+            it.call(WS + fn, [Ref(ws), iref(p), iref(n)])
+        except Panic as e:
+            self.fail(ctx, res, 'no-panic', str(e), info=info); return
+        inband = lambda x: z3.And(x >= p, x < p + n)
+        def moved(x): return z3.If(x >= p, x + n, x) if op == 'insert' else z3.If(x >= p + n, x - n, x)
+        # cells: each survivor is found at its new position with its own value; deleted ones are gone; nothing else exists
+        try:
+            exp_count = 0
+            for (c, r, tag, nm) in ((ca, ra, 1, 'A'), (cb, rb, 2, 'B')):
+                dead = op == 'remove' and ctx.branch(inband(pos(c, r)))
+                nc, nr = (c, moved(r)) if axis == 'row' else (moved(c), r)
+                if dead: continue
+                exp_count += 1
+                got = cell_tag(it, ws, nc, nr)
+                self.oblige(ctx, res, 'cell-%s-relocated' % nm, got == tag, info=dict(info, got=got))
+                rd = it.call(WS + 'get_row_dimension', [Ref(ws), iref(nr)])
+                self.oblige(ctx, res, 'cell-%s-row-known' % nm, rd.variant == 1, info=info)
+            cnt = len(it.call(WS + 'get_cell_collection', [Ref(ws)]))
+            self.oblige(ctx, res, 'cell-count', cnt == exp_count, info=dict(info, count=cnt, expected=exp_count))
+            # merged range
+            mcs = deref_all(it.call(WS + 'get_merge_cells', [Ref(ws)]))
+            a1, a2 = pos(m1c, m1r), pos(m2c, m2r)
+            inside = op == 'remove' and ctx.branch(z3.And(inband(a1), inband(a2)))
+            if inside: self.oblige(ctx, res, 'merge-deleted', len(mcs) == 0, info=info)
+            elif len(mcs) != 1: self.fail(ctx, res, 'merge-kept', 'merged range lost', info=info)
+            else:
+                f = mcs[0].fields; num = lambda o: o.fields[0].fields[0]
+                sc, sr, ec, er = num(f[0]), num(f[1]), num(f[2]), num(f[3])
+                if op == 'insert': e1, e2 = moved(a1), moved(a2)
+                else:
+                    e1 = z3.If(inband(a1), p, moved(a1)); e2 = z3.If(inband(a2), p - 1, moved(a2))
+                exp = z3.And(sr == e1, er == e2, sc == m1c, ec == m2c) if axis == 'row' else z3.And(sc == e1, ec == e2, sr == m1r, er == m2r)
+                self.oblige(ctx, res, 'merge-relocated', exp, info=info)
+            # comment
+            cms = deref_all(it.call(WS + 'get_comments', [Ref(ws)]))
+            kdead = op == 'remove' and ctx.branch(inband(pos(kc, kr)))
+            if kdead: self.oblige(ctx, res, 'comment-deleted', len(cms) == 0, info=info)
+            elif len(cms) != 1: self.fail(ctx, res, 'comment-kept', 'comment lost', info=info)
+            else:
+                cc = it.call('structs::comment::Comment::get_coordinate', [Ref(Box_(cms[0]))])
+                gc = deref_all(it.call('structs::coordinate::Coordinate::get_col_num', [cc])); gr = deref_all(it.call('structs::coordinate::Coordinate::get_row_num', [cc]))
+                ec_, er_ = (kc, moved(kr)) if axis == 'row' else (moved(kc), kr)
+                self.oblige(ctx, res, 'comment-relocated', z3.And(gc == ec_, gr == er_), info=info)
+        except Panic as e:
+            self.fail(ctx, res, 'no-panic', 'observer: ' + str(e), info=info)
+    def case_of(self, v):
+        m = v['model']
+        c = {'op': 'insert' if m['op_insert'] else 'remove', 'axis': 'row' if m['axis_row'] else 'col', 'p': m['p'], 'n': m['n'],
+             'cells': [[m['ca'], m['ra']], [m['cb'], m['rb']]], 'merge': coord_str(m['m1c'], m['m1r'], False, False) + ':' + coord_str(m['m2c'], m['m2r'], False, False), 'comment': [m['kc'], m['kr']], 'oblig': v['oblig']}
+        c['show'] = dict(c); return c
+    def confirm(self, case, profile):
+        (ca, ra), (cb, rb) = case['cells']; kc, kr = case['comment']
+        r = native.run_cases([['sheet_edit', case['op'], case['axis'], case['p'], case['n'], ca, ra, cb, rb, case['merge'], kc, kr]], profile)[0]
+        exp = ref_sheet_edit(case)
+        if r[0] != 'ok': return True, 'sheet edit %r -> %s %s' % (case['show'], r[0], r[1])
+        got = [native.unhx(x) for x in r[1]]
+        return got != exp, 'observed %r expected %r' % (got, exp)
+def ref_sheet_edit(case):
+    op, axis, p, n = case['op'], case['axis'], case['p'], case['n']
+    k = 1 if axis == 'row' else 0
+    def mv(pt):
+        pt = list(pt); x = pt[k]
+        if op == 'insert': pt[k] = x + n if x >= p else x
+        else:
+            if p <= x < p + n: return None
+            pt[k] = x - n if x >= p + n else x
+        return pt
+    cells = []
+    for pt, tag in zip(case['cells'], ('TRUE', 'FALSE')):
+        q = mv(pt)
+        if q: cells.append('%s=%s' % (coord_str(q[0], q[1], False, False), tag))
+    mr = ref_range_edit(case['merge'], op, axis, p, n)
+    kq = mv(case['comment'])
+    return [','.join(sorted(cells)), mr or '-', coord_str(kq[0], kq[1], False, False) if kq else '-']
+
+class SheetMove(Harness):
+    name = 'sheet.move_copy'; property_id = 'C07'
+    entry = [WS + 'move_range', WS + 'copy_range']
+    doc = 'move_range / copy_range of a symbolic rectangle by a symbolic offset on a real Worksheet holding two cells: source emptied (move) or kept (copy), destination holds exactly the translated source cells'
+    def __init__(self, tier):
+        self.D = 3 if tier == 'thorough' else 2
+        self.bounds = {'cells': 2, 'domain': '1..%d x 1..%d for cells and source rectangle' % (self.D, self.D), 'offset': 'every offset that keeps the destination inside 1..%d' % (2 * self.D)}
+    def run(self, it, ctx, res):
+        D = self.D
+        mv = ctx.branch(ctx.sym_bool('is_move'))
+        ca = ctx.sym_int('ca', 1, 2 * D); ra = ctx.sym_int('ra', 1, 2 * D); cb = ctx.sym_int('cb', 1, 2 * D); rb = ctx.sym_int('rb', 1, 2 * D)
+        ctx.assume(z3.Or(ca != cb, ra != rb))
+        c1 = ctx.sym_int('c1', 1, D); c2 = ctx.sym_int('c2', 1, D); r1 = ctx.sym_int('r1', 1, D); r2 = ctx.sym_int('r2', 1, D)
+        dc = ctx.sym_int('dc', -D, D); dr = ctx.sym_int('dr', -D, D)
+        ctx.assume(z3.And(c1 <= c2, r1 <= r2, c1 + dc >= 1, r1 + dr >= 1, z3.Or(dc != 0, dr != 0)))
+        info = {'move': mv}
+        text = sym_coord(ctx, c1, r1, False, False, 'a') + [58] + sym_coord(ctx, c2, r2, False, False, 'b')
+        try:
+            ws = new_sheet(it)
+            put_cell(it, ws, ca, ra, True); put_cell(it, ws, cb, rb, False)
+            it.call(WS + ('move_range' if mv else 'copy_range'), [Ref(ws), sref(SStr(text)), iref(dr), iref(dc)])
+        except Panic as e:
+            self.fail(ctx, res, 'no-panic', str(e), info=info); return
+        def content0(c, r): return z3.If(z3.And(c == ca, r == ra), 1, z3.If(z3.And(c == cb, r == rb), 2, 0))
+        def insrc(c, r): return z3.And(c >= c1, c <= c2, r >= r1, r <= r2)
+        def indst(c, r): return insrc(c - dc, r - dr)
+        def expect(c, r):
+            if mv: return z3.If(indst(c, r), content0(c - dc, r - dr), z3.If(insrc(c, r), 0, content0(c, r)))
+            return z3.If(z3.And(indst(c, r), content0(c - dc, r - dr) != 0), content0(c - dc, r - dr), content0(c, r))
+        try:
+            for nm, (c, r) in (('A', (ca, ra)), ('B', (cb, rb)), ('A+d', (ca + dc, ra + dr)), ('B+d', (cb + dc, rb + dr))):
+                if not ctx.branch(z3.And(c >= 1, r >= 1)): continue
+                got = cell_tag(it, ws, c, r)
+                self.oblige(ctx, res, 'content-at-' + nm, expect(c, r) == got, info=dict(info, got=got))
+            cnt = len(it.call(WS + 'get_cell_collection', [Ref(ws)]))
+            pts = [(ca, ra), (cb, rb), (ca + dc, ra + dr), (cb + dc, rb + dr)]
+            tot = 0
+            for i, (c, r) in enumerate(pts):
+                dup = z3.Or(*[z3.And(c == pc, r == pr) for pc, pr in pts[:i]]) if i else False
+                tot = tot + z3.If(z3.And(z3.Not(dup) if i else True, c >= 1, r >= 1, expect(c, r) != 0), 1, 0)
+            self.oblige(ctx, res, 'cell-count', tot == cnt, info=dict(info, count=cnt))
+        except Panic as e:
+            self.fail(ctx, res, 'no-panic', 'observer: ' + str(e), info=info)
+    def case_of(self, v):
+        m = v['model']
+        c = {'move': bool(m['is_move']), 'cells': [[m['ca'], m['ra']], [m['cb'], m['rb']]], 'range': coord_str(m['c1'], m['r1'], False, False) + ':' + coord_str(m['c2'], m['r2'], False, False), 'rect': [m['c1'], m['r1'], m['c2'], m['r2']], 'd': [m['dc'], m['dr']], 'oblig': v['oblig']}
+        c['show'] = dict(c); return c
+    def confirm(self, case, profile):
+        (ca, ra), (cb, rb) = case['cells']; dc, dr = case['d']
+        r = native.run_cases([['sheet_move', case['move'], ca, ra, cb, rb, case['range'], dr + 100, dc + 100]], profile)[0]
+        grid = {(ca, ra): 'TRUE', (cb, rb): 'FALSE'}; c1, r1, c2, r2 = case['rect']
+        src = {k: v for k, v in grid.items() if c1 <= k[0] <= c2 and r1 <= k[1] <= r2}
+        new = dict(grid)
+        if case['move']:
+            for c in range(c1, c2 + 1):
+                for rr in range(r1, r2 + 1): new.pop((c, rr), None); new.pop((c + dc, rr + dr), None)
+        for (c, rr), v in src.items(): new[(c + dc, rr + dr)] = v
+        exp = ','.join(sorted('%s=%s' % (coord_str(c, rr, False, False), v) for (c, rr), v in new.items()))
+        if r[0] != 'ok': return True, '%r -> %s %s' % (case['show'], r[0], r[1])
+        got = native.unhx(r[1][0])
+        return got != exp, 'observed %r expected %r' % (got, exp)
+
 def harnesses(tier):
-    return [Scalar(), RangeShift(tier)]
+    return [Scalar(), RangeShift(tier), SheetEdit(tier), SheetMove(tier)]
+
+OPTIONS = {'want_smir': True}
